@@ -738,7 +738,7 @@ impl<E: Effect, R: CommandReceiver<E>, S: EventSender<E>> Worker<E, R, S> {
         process_id: ProcessId,
         keep_indices: Vec<usize>,
     ) -> Result<(), EnvironmentError> {
-        // Build the kept values (preserving the specific LocalNotFound error on a bad index)...
+        // Build the kept values...
         let process = self
             .executor
             .get_process(process_id)
@@ -748,9 +748,11 @@ impl<E: Effect, R: CommandReceiver<E>, S: EventSender<E>> Worker<E, R, S> {
         for &index in &keep_indices {
             match process.locals.get(index) {
                 Some(value) => new_locals.push(value.clone()),
-                None => {
-                    return Err(EnvironmentError::LocalNotFound { process_id, index });
-                }
+                // The host records a line's bindings when it compiles the line; if the line
+                // short-circuited at run time before a later binding, that slot was never
+                // stored. Such a binding holds nil - failing here would return an error from
+                // `step` and end this worker's loop, hanging every process it hosts.
+                None => new_locals.push(Value::nil()),
             }
         }
 
